@@ -4,6 +4,7 @@ import json
 
 import fmt
 import gen
+import live
 import spec
 import sx
 from sx import tag
@@ -30,7 +31,22 @@ def impl_write(scratch, m, writer_cls, ext):
     fm = spec.build_fm(m)
     path = scratch.path(ext)
     try:
-        ret = writer_cls(path, fm).transform()
+        if live.mode_of(m)[1] % 3 == 0:
+            # a writer object made while the model was in another state and used once already: what it writes
+            # now is the model as it is now (constraint list rebound, root renamed in between)
+            ctcs, name = fm.ctcs, fm.root.name
+            fm.ctcs, fm.root.name = [], name + "Before"
+            writer = writer_cls(path, fm)
+            try:
+                writer.transform()
+            except RecursionError:
+                raise
+            except Exception:  # noqa: BLE001
+                pass
+            fm.ctcs, fm.root.name = ctcs, name
+            ret = writer.transform()
+        else:
+            ret = writer_cls(path, fm).transform()
     except RecursionError:
         raise
     except Exception as e:  # noqa: BLE001
@@ -86,9 +102,16 @@ def run(ctx):
                 return holder["fm"]
             iread = sx.dumps(fmt.result_pfm(read_file))
             r.record("writer-output", rreq, iread, mread)
-            iread2 = sx.dumps(fmt.result_pfm(lambda: JSONReader.parse_json(json.loads(ret))))
+            loaded = json.loads(ret)
+            iread2 = sx.dumps(fmt.result_pfm(lambda: JSONReader.parse_json(loaded)))
             if iread2 != iread:
                 r.oracle_fail("writer-output", rreq, "parse_json-differs-from-file", iread2[:300])
+            # the loaded object is the caller's: parsing leaves it as it was, and parsing it again gives the same
+            if loaded != json.loads(ret):
+                r.oracle_fail("writer-output", rreq, "parse_json-modified-the-loaded-object", "")
+            iread3 = sx.dumps(fmt.result_pfm(lambda: JSONReader.parse_json(loaded)))
+            if iread3 != iread:
+                r.oracle_fail("writer-output", rreq, "parse_json-differs-from-file", "second call on the same object: " + iread3[:300])
             # ---- C05 oracle: same model back, any number of cycles
             if "fm" not in holder:
                 r.oracle_fail("writer-output", req, "reader-raises-on-writer-output", iread[:200])
@@ -116,6 +139,25 @@ def run(ctx):
                 if not same_spec(spec.dump_fm(cur), back):
                     r.oracle_fail("writer-output", req, f"cycle{cyc}:model-differs", "")
                     break
+        # ---- strings that no UTF-8 text can carry (a lone surrogate is a legal character of a Python string): the
+        # S-expression transport to the Gallina model cannot carry them either, so this is the oracle alone
+        for nm in ("A\ud800B", "\udfff", "x\udc80"):
+            m = dict(root=spec.F("Root", [spec.R(0, 1, [spec.F(nm)]), spec.R(1, 1, [spec.F("Plain")])]),
+                     ctcs=[("c0", spec.OP("IMPLIES", spec.T(nm), spec.T("Plain")))])
+            label = "lone-surrogate"
+            req = repr(nm)
+            try:
+                fm = spec.build_fm_plain(m)
+                path = sc.path("json")
+                ret = JSONWriter(path, fm).transform()
+                back = spec.dump_fm(JSONReader(path).transform())
+                ok = [f["name"] for f in spec.spec_features(back["root"])] == ["Root", nm, "Plain"] and back["ctcs"] == m["ctcs"]
+                if not ok:
+                    r.oracle_fail(label, req, "roundtrip:same-model", "a name with a lone surrogate does not come back")
+            except RecursionError:
+                raise
+            except Exception as e:  # noqa: BLE001
+                r.oracle_fail(label, req, "writer-raises-on-fragment-model", spec.exn_name(e))
         # ---- hand-emitted and malformed documents
         for label, doc in documents(ctx):
             rreq = sx.dumps(tag("json_read", spec.aval_sx(doc)))
